@@ -90,7 +90,9 @@ def check(run: Run) -> None:
             raise AnalysisError(f"anchor vanished: ObjectStream.{name}")
         fa = ctx.analysis(fi)
         selfp = ("param", fi.pos_params[0])
-        rt = strip_sites(fa.return_term())
+        from ..terms import splice_literals as _splice
+
+        rt = _splice(strip_sites(fa.return_term()))  # [src, *map(as_ast, (a, b))] is [src, as_ast(a), as_ast(b)]
         ok = rt[0] == "app" and rt[1][0] == "global" and rt[1][1].endswith("ObjectStream") and len(rt[2]) >= 1
         node = rt[2][0] if ok else None
         d = dict(node[2]) if node and node[0] == "new" and node[1] == "Call" else {}
